@@ -624,6 +624,12 @@ public:
 			std::visit([this](auto&& arg)
 			{
 				using T = std::decay_t<decltype(arg)>;
+				// The writer stops on the first value that cannot be represented in JSON (e.g. NaN, infinity)
+				const auto checkResult = [](bool isWritten) {
+					if (!isWritten) {
+						throw SerializationException(SerializationErrorCode::OutOfRange, "Unable to write one of the values to JSON (NaN and infinity are not supported, strings must be valid UTF)");
+					}
+				};
 
 				auto& options = this->GetOptions();
 				if constexpr (std::is_same_v<T, std::string*>)
@@ -634,12 +640,12 @@ public:
 					{
 						rapidjson::PrettyWriter<StringBuffer, TEncoding, rapidjson::UTF8<>> writer(buffer);
 						writer.SetIndent(options.formatOptions.paddingChar, options.formatOptions.paddingCharNum);
-						mRootJson.Accept(writer);
+						checkResult(mRootJson.Accept(writer));
 					}
 					else
 					{
 						rapidjson::Writer<StringBuffer, TEncoding, rapidjson::UTF8<>> writer(buffer);
-						mRootJson.Accept(writer);
+						checkResult(mRootJson.Accept(writer));
 					}
 					*arg = buffer.GetString();
 				}
@@ -652,12 +658,12 @@ public:
 					{
 						rapidjson::PrettyWriter<AutoOutputStream, TEncoding, rapidjson::AutoUTF<uint32_t>> writer(eos);
 						writer.SetIndent(options.formatOptions.paddingChar, options.formatOptions.paddingCharNum);
-						mRootJson.Accept(writer);
+						checkResult(mRootJson.Accept(writer));
 					}
 					else
 					{
 						rapidjson::Writer<AutoOutputStream, TEncoding, rapidjson::AutoUTF<uint32_t>> writer(eos);
-						mRootJson.Accept(writer);
+						checkResult(mRootJson.Accept(writer));
 					}
 				}
 			}, mOutput);
